@@ -445,3 +445,74 @@ OBLIGATIONS.append(Ob('walk_next_then_previous', ob_walk, ['1 <= n <= %d' % tier
 OBLIGATIONS.append(Ob('render_twice', ob_render_twice, ['1 <= start1 <= 3', '1 <= size1 <= 2', '1 <= start2 <= 3', '1 <= size2 <= 2', '0 <= orphan <= 1'], timeout=tier(250, 900),
                       data='start/size of two consecutive renderings of one freshly compiled template (symbolic ints through variables), orphan', selectors='6 elements',
                       stubs='template compiled untraced inside the obligation (fresh object per path)'))
+
+
+# ---------------------------------------------------------------- wave 3: the batch LISTS, read on every row
+T_LISTS = cooked('<dtml-in s start=a size=c orphan=d overlap=e><dtml-call "rec(_)"></dtml-in>')
+
+
+def pick_small(k, n):
+    lo, hi = 0, n
+    while hi - lo > 1:
+        mid = (lo + hi) // 2
+        if k < mid:
+            hi = mid
+        else:
+            lo = mid
+    return lo
+
+
+def ob_batch_lists(n: int, start: int, size: int, orphan: int, overlap: int, every: bool) -> bool:
+    """next-batches / previous-batches announce the chain of following / preceding windows (each starting at end+1-overlap of the one
+    before, resp. ending at start-1+overlap of the one after); they are asserted on the rows where next-/previous-sequence is true -
+    whether the body looks at them on every row (every=True) or only on the edge rows"""
+    from crosshair.tracers import NoTracing
+    nn, st, sz, orp = pick_small(n, 7) + 1, pick_small(start, 7) + 1, pick_small(size, 3) + 1, pick_small(orphan, 3)
+    ov = pick_small(overlap, 3)
+    ev = bool(every)
+    with NoTracing():
+        if ov >= sz or st > nn:
+            return True
+        rows = []
+
+        def rec(md):
+            nxt = prv = None
+            if ev or md['next-sequence']:
+                nxt = [(b['batch-start-index'] + 1, b['batch-end-index'] + 1) for b in md['next-batches']]
+            if ev or md['previous-sequence']:
+                prv = [(b['batch-start-index'] + 1, b['batch-end-index'] + 1) for b in md['previous-batches']]
+            rows.append((md['sequence-number'], bool(md['next-sequence']), bool(md['previous-sequence']), nxt, prv))
+            return ''
+        T_LISTS(s=list(range(1, nn + 1)), a=st, c=sz, d=orp, e=ov, rec=rec)
+        s, e = ref_window(st, 0, sz, orp, nn)
+        if [r[0] for r in rows] != list(range(s, e + 1)):
+            return False
+        # expected chains
+        exp_next, ce = [], e
+        while ce < nn:
+            ws, we = ref_window(ce + 1 - ov, 0, sz, orp, nn)
+            exp_next.append((ws, we))
+            ce = we
+        exp_prev, cs = [], s
+        while cs > 1:
+            ws, we = ref_window(0, cs - 1 + ov, sz, orp, nn)
+            exp_prev.append((ws, we))
+            cs = ws
+        exp_prev.reverse()
+        for i, (num, nx, pv, nxt, prv) in enumerate(rows):
+            last, first = i == len(rows) - 1, i == 0
+            if nx != (last and e < nn) or pv != (first and s > 1):
+                return False
+            # the lists are asserted where the statement speaks: on the row whose next-/previous-sequence flag is true (what they
+            # hold on other rows is not specified); reading them on other rows first must not change that answer
+            if nx and list(nxt) != exp_next:
+                return False
+            if pv and list(prv) != exp_prev:
+                return False
+        return True
+
+
+OBLIGATIONS.append(Ob('batch_lists', ob_batch_lists, ['0 <= n < 7', '0 <= start < 7', '0 <= size < 3', '0 <= orphan < 3', '0 <= overlap < 3'], timeout=tier(250, 900), path_timeout=60,
+                      data='-', selectors='length 1..7, start 1..7, size 1..3, orphan 0..2, overlap 0..2 (< size), bit "body reads the lists on every row": next-batches / previous-batches '
+                      'against chains built from the statement\'s window rule', outside='sequences longer than 7; size > 3',
+                      stubs='render runs untraced once the parameters are fixed on the path'))
